@@ -213,10 +213,10 @@ func (c *FnVC) loopWrites(li *loopInfo) (map[string][]string, bool, bool) {
 				for k := range ms.kinds(c) {
 					add(k, ms.inSet(k, "l"))
 				}
-			case *ssa.Go, *ssa.Send, *ssa.Select, *ssa.RunDefers:
-				if _, isRD := in.(*ssa.RunDefers); !isRD {
-					everything = true
-				}
+			case *ssa.Go, *ssa.Select:
+				everything = true
+			case *ssa.Send, *ssa.RunDefers:
+				// a send has no effect on this goroutine's heap (see instr.go)
 			}
 		}
 	}
